@@ -11,4 +11,28 @@ PROPS = {
         "level_text": "Unbounded proof (induction over the routing-word list) that a message with k routing words is delivered iff k <= TTL for every TTL, k, ids and payload, for any hop site satisfying a decidable well-formedness obligation; the obligation is re-proved on every run against the drop guard, initial counter and loop shape extracted from each of the six Go receivers, and the executable model (with the extracted parameters) is run against the real receivers on the TTL x hops grid (exhaustive in the thorough tier).",
         "level_note": COMMON_NOTE + "Modelled, not verified: the Go loops are represented by their extracted guard, initial value and statement order; Device chains by composition of single hops.",
     },
+    "C01": {
+        "obl": ["Obl.Wire"],
+        "sites": ["message.go", "transport"],
+        "assumptions": ["net.Buffers.WriteTo, io.ReadFull, binary.Read, crypto/tls and gorilla/websocket move exactly the bytes given", "sync.Pool returns some previously Put buffer or a new one"],
+        "technique": "Lean 4 theorems (stream round trip by induction over the message list, pool capacity invariant) over a codec model whose guard/length/order facts are regenerated from conn.go, connipc_posix.go, ws.go and message.go each run; differential execution of the real conn code (fragmented in-memory streams) and of real sockets over 6 transports x 16 socket kinds",
+        "level_text": "Unbounded proof that any sequence of messages of any sizes written back to back decodes to exactly that sequence (never split, merged, truncated or padded), that total = limit is delivered and limit+1 refused, and that NewMessage returns capacity >= size in every reachable pool state; hypotheses are decidable well-formedness obligations re-proved each run against the extracted size guard, length expression, buffer order, prefix byte, pool class table and comparison operators; the executable codec is compared with the real transport code on fragmented streams and boundary sizes, and real sockets carry position-dependent bodies over inproc/ipc/tcp/tls/ws/wss for all 8 patterns cooked and raw.",
+        "level_note": COMMON_NOTE + "Modelled, not verified: the kernel/TLS/WebSocket layers; per-pattern header add/strip is validated end to end by the socket runs (and by C05/C09 for the routing headers) rather than proved here.",
+    },
+    "C15": {
+        "obl": ["Obl.Wire", "Obl.Proto"],
+        "sites": ["transport", "protocol"],
+        "assumptions": ["gorilla/websocket implements RFC 6455 framing and subprotocol negotiation"],
+        "technique": "Lean 4 theorem accept_iff_exact (a peer header is accepted iff it is exactly 00 'S' 'P' 00 <peer be16> 00 00) over handshake checks regenerated from conn.handshake; protocol-number table obligations by kernel evaluation; Lean codec used as the independent implementation against the real conn code in both directions",
+        "level_text": "Proof for all 2^64 possible 8-byte headers and every expected peer number that acceptance is equivalent to exact equality with the SP header (so every deviation is refused), plus frame layout theorems; the reject conditions, their order and errors, the header layout, the 12 protocol numbers, the Self/Peer involution of all 24 packages and the WebSocket subprotocol/frame-type strings are regenerated from the source and re-checked each run; all 12 protocols x {tcp-style, ipc-style} handshakes and all single-byte deviations (sampled in quick, all 8x255 in thorough) are executed against the real code and compared with the model.",
+        "level_note": COMMON_NOTE + "TLS record layer and WebSocket framing are trusted libraries; ws subprotocol strings are tied syntactically (extracted expressions), not by a raw ws peer.",
+    },
+    "C16": {
+        "obl": ["Obl.Wire"],
+        "sites": ["transport"],
+        "assumptions": ["a panic in any library goroutine terminates the harness process and is reported as a harness failure with its log"],
+        "technique": "Lean 4 theorems (decode totality / nothing invented, refusal before reading for negative or over-limit lengths, per-pattern parse conservation) over the regenerated size guard; guard-dominates-allocation fact extracted from both Recv functions; structured hostile streams and bodies executed against the real code and compared with the model",
+        "level_text": "Proof that for every byte string the stream decoder delivers only a split of what the peer sent after the framing bytes, that any announced size that is negative or above a set limit is refused whatever follows (the extractor checks the guard precedes the allocation), and that every pattern's header parser conserves bytes; the real conn code is fed negative/huge lengths, limit+-1, truncation at every offset and random mutations, every protocol's receiver is fed the word catalogue of lengths 0..15 followed by a well-formed sentinel that must still get through, and a stalled handshake must not delay another peer.",
+        "level_note": COMMON_NOTE + "Absence of panics and of unbounded allocation is observed (process survival, GOMEMLIMIT), not proved; REQ/SURVEYOR/SUB receive paths are covered by C03/C07/C06.",
+    },
 }
